@@ -1,4 +1,5 @@
 import Cx.Proofs.Cost
+import Cx.Proofs.CompositeSimCost
 /-
   C05 — every single search runs in time linear in the haystack (the engines' step counts).
 
@@ -10,8 +11,12 @@ import Cx.Proofs.Cost
   * backtracker, span search with ONE visited set for all start positions (the code after the fix): same answers
     (`btSearchAtShared_eq`) and a linear bound;
   * Pike VM: ≤ 15·|N|·(|h|-at+1) + 6 under the harness-checked hypotheses.
+  * CompositeSearcher after its rewrite (Cx.Model.CompositeSim): ≤ 5·(nConfigs+1)·(|h|-at+1) for `SearchAt` and `IsMatch`
+    alike, `nConfigs = Σ (cap+1)` a constant of the pattern — `C05_compositeSearcher_linear`; the OLD backtracking
+    searcher is cubic on `[a-c]+[a-c]+[0-9]` / a^n (`C05_compositeSearcher_old_not_linear_test`: an evaluated table, not
+    a theorem about every n).
   The real code's work is measured by the C05 check (executed basic blocks via coverage counters, doubling experiments);
-  strategies that rescan (candidate loops, composite searcher recursion, reverse searches) are not modelled: partial.
+  strategies that rescan (candidate loops, reverse searches) are not modelled: partial.
 -/
 namespace Cx.C05
 open Cx Cx.Nfa
@@ -37,5 +42,27 @@ theorem C05_pike_linear {N : NFA} {h : Bytes} (hd : Pike.SparseDisjoint N) (hR :
     (Pike.searchAtC N h at_ longest).1 = Pike.searchAt N h at_ longest ∧
     (Pike.searchAtC N h at_ longest).2 ≤ 15 * N.states.size * (h.size - at_ + 1) + 6 :=
   ⟨(Pike.C05_pike_linear hd hR at_ longest).1, Pike.C05_pike_linear' hd hR at_ longest hN⟩
+
+/-- the rewritten CompositeSearcher: instrumented search = plain search, and the step count (bytes skipped, greedy loop
+    tests, closure elements examined, threads visited) is linear in the haystack for a fixed pattern -/
+theorem C05_compositeSearcher_linear (re : Fast.Re) (s : CompSim.CompositeSim) (hs : CompSim.newCompositeSim re = some s)
+    (h : Bytes) (at_ : Nat) (earliest : Bool) :
+    (s.searchC h at_ earliest).1 = s.search h at_ earliest ∧
+    (s.searchC h at_ earliest).2 ≤ 5 * (s.configs.size + 1) * (h.size - at_ + 1) ∧
+    s.configs.size = CompSim.numConfigs s.parts :=
+  ⟨(CompSim.compSim_linear re s hs h at_ earliest).1, (CompSim.compSim_linear re s hs h at_ earliest).2,
+   CompSim.compSim_nConfigs re s hs⟩
+
+/-- TEST (kernel evaluation, not a theorem about every n): the OLD backtracking CompositeSearcher on
+    `[a-c]+[a-c]+[0-9]` / a^n takes 90, 498, 3298 steps for n = 4, 8, 16 (more than ×4 per doubling), already above the
+    linear bound of the new search (5·7·17 = 595) at n = 16, where the new search takes 200 steps -/
+theorem C05_compositeSearcher_old_not_linear_test :
+    ((CompSim.oldSearchAtC CompSim.cubicParts (CompSim.aHay 4) 0).2 = 90 ∧
+     (CompSim.oldSearchAtC CompSim.cubicParts (CompSim.aHay 8) 0).2 = 498 ∧
+     (CompSim.oldSearchAtC CompSim.cubicParts (CompSim.aHay 16) 0).2 = 3298) ∧
+    5 * (6 + 1) * (16 - 0 + 1) < (CompSim.oldSearchAtC CompSim.cubicParts (CompSim.aHay 16) 0).2 ∧
+    (((CompSim.buildTables CompSim.cubicParts).searchC (CompSim.aHay 16) 0 false).2 = 200 ∧
+     (CompSim.buildTables CompSim.cubicParts).configs.size = 6) :=
+  ⟨CompSim.old_steps_table, CompSim.old_exceeds_linear_bound, CompSim.new_steps_16⟩
 
 end Cx.C05
